@@ -135,9 +135,9 @@ Fixpoint deep_enough (f : nat) (e : expr) : bool :=
   | S f' => forallb (deep_enough f') (child_exprs e)
   end.
 
+(* every wire node of e is serialisable, and there are fewer than 2^64 of them *)
 Definition serialisable (e : expr) : bool :=
-  deep_enough (size e + 2) e
-  && forallb (fun s => node_ser (wt_expr s)) (subtrees (label e))
+  forallb (fun s => node_ser (wt_expr s)) (subtrees (label e))
   && (snd (label_fresh (size e + 2) e 1) <? W64).
 
 (* ---------------------------------------------------------------- what a decoded tree satisfies *)
